@@ -210,6 +210,9 @@ type c03Env struct {
 	o          *vh.Oracle
 	r          *vh.Result
 	fs         *httptest.Server
+	s3         *httptest.Server
+	self       string
+	sshOK      bool
 	mu         sync.Mutex
 	rules      []c03Fault
 	hist       []string // observed raw operations "T:k:id"
@@ -1019,7 +1022,7 @@ func (e *c03Env) correspond(c *c03Case, leaves []c03Leaf, after map[int]map[stri
 		}
 	}
 	for _, l := range leaves {
-		if l.kind != "local" {
+		if l.kind == "http" {
 			continue
 		}
 		impl := after[l.k]
@@ -1056,8 +1059,10 @@ func runC03(a vh.Args, o *vh.Oracle, r *vh.Result) error {
 	e.fs = httptest.NewServer(http.HandlerFunc(e.serveFiles))
 	defer e.fs.Close()
 	if err := e.setupSSH(); err != nil {
-		r.Note("RemoteSSH backend not available: %v", err)
+		r.Note("%v", err)
 	}
+	e.setupS3()
+	defer e.s3.Close()
 	defer func() { desync.Digest = desync.SHA512256{} }()
 	if a.Replay != "" {
 		var c c03Case
@@ -1090,21 +1095,27 @@ func runC03(a vh.Args, o *vh.Oracle, r *vh.Result) error {
 }
 
 func (e *c03Env) setupSSH() error {
+	p := filepath.Join(e.a.Work, "fake-ssh")
+	// ssh <host> -s sftp : this binary as SFTP server; ssh <host> <command>: run the command locally
+	script := "#!/bin/sh\nif [ \"$2\" = \"-s\" ]; then exec \"$VH_SELF\" C03SFTP; fi\nshift\nexec /bin/sh -c \"$1\"\n"
+	if err := os.WriteFile(p, []byte(script), 0755); err != nil {
+		return err
+	}
+	os.Setenv("CASYNC_SSH_PATH", p)
+	e.fakeSSH = p
+	if self, err := os.Executable(); err == nil {
+		e.self = self
+		os.Setenv("VH_SELF", self)
+	}
 	bin := os.Getenv("VH_DESYNC")
 	if bin == "" {
-		return errors.New("VH_DESYNC not set")
+		return errors.New("VH_DESYNC not set: RemoteSSH cases skipped")
 	}
 	if _, err := os.Stat(bin); err != nil {
 		return err
 	}
-	p := filepath.Join(e.a.Work, "fake-ssh")
-	// ssh <host> <command>: run the command locally
-	if err := os.WriteFile(p, []byte("#!/bin/sh\nshift\nexec /bin/sh -c \"$1\"\n"), 0755); err != nil {
-		return err
-	}
-	os.Setenv("CASYNC_SSH_PATH", p)
 	os.Setenv("CASYNC_REMOTE_PATH", bin)
-	e.fakeSSH = p
+	e.sshOK = true
 	return nil
 }
 
